@@ -38,7 +38,7 @@ Print Assumptions C08_no_S.
 
 (* which hosts the -S loop sees as FAILED: in the timed system of the whole run (Dsh/Sys.v) a worker that has
    written its final status is in state FAILED exactly when it took a failure branch, DONE otherwise ... *)
-Theorem C08_final_status : forall (c : cfg) t0 es s i w, run c (init c t0) es = Some s ->
+Theorem C08_final_status : forall (c : cfg), 1 <= f c -> forall t0 es s i w, run c (init c t0) es = Some s ->
   nth_error (ws s) i = Some w -> settled (pc w) = true -> ts w = if failed w then TFailed else TDone.
 Proof. exact final_status. Qed.
 Print Assumptions C08_final_status.
